@@ -482,11 +482,11 @@ def scenarios(rng, tier):
     # (d) polling consumers whose period is a multiple of the bit period: the previous byte is still pending (stall of 1.5 .. 6 bit
     #     periods) when the next start bit falls, frames back-to-back or a few bit periods apart -- every ratio
     demo = [0x55, 0xA3, 0x00, 0xFF, 0x01, 0x80, 0x7E, 0x42, 0x0F, 0xC3]
-    for n in (ns if quick else ns[:14] + [20, 32, 40]):
+    for n in (ns if quick else ns[:10] + [20, 40]):
         P = 2 * n
         r = rng.fork(('d', n))
         combos = [(3, 2, 0), (5, 2, 0), (3, 2, 3), (5, 2, 3 * P), (2, 1, 0), (4, 2, 6 * P)] if quick else \
-                 [(kp, w, g) for kp in (2, 3, 4, 5) for w in (1, 2, 3) for g in (0, 3, P, 3 * P, 6 * P)]
+                 [(kp, w, g) for kp in (2, 3, 4, 5) for w in (1, 2) for g in (0, 3, 3 * P, 6 * P)]
         for kp, w, g in combos:
             m = 6 if quick else 10
             out.append(dict(n=n, freq=freqs_for(n, r), bytes=demo[:m], producer=dict(kind='hold', gaps=[g] * m),
